@@ -225,7 +225,21 @@ Module ModifyFieldC.
         (Proto.RegWrite 7 16 [0xF5; 0x5F]%Z, Proto.mkResp (Proto.ROk 0%nat) [])],
        Proto.Done (Proto.ROk tt)).
   Proof. vm_compute. reflexivity. Qed.
+  (* `reg.write(|r| r.set_x(v))`: exactly one write whose bytes are the reset value with only x's set-bits
+     replaced (composition of C05_write with the emitted setter). *)
+  Theorem C05_write_sets_only_the_field : forall ptrw bo bi size f v orc h a reset,
+    In ptrw ptr_widths -> (0 < size)%Z ->
+    field_ok size f -> (0 <= f_start f)%Z -> (field_end f - f_start f <= 128)%Z ->
+    List.length reset = Proto.nbytes size -> bytes_ok reset ->
+    exists data,
+      store_post (to_byte_order bo) (to_bit_order bi) v (f_start f) (field_end f) reset data /\
+      Proto.run orc (Proto.reg_write a size reset (field_setter_closure ptrw bo bi f v)) h =
+        let c := Proto.RegWrite a size data in
+        let r := orc h c in
+        ([(c, r)], Proto.Done (match Proto.r_res r with Proto.ROk _ => Proto.ROk tt | Proto.RErr e => Proto.RErr e end)).
+  Proof. exact ModifyField.write_sets_only_the_field. Qed.
 End ModifyFieldC.
+Definition C05_write_sets_only_the_field := ModifyFieldC.C05_write_sets_only_the_field.
 Definition C05_modify_sets_only_the_field := ModifyFieldC.C05_modify_sets_only_the_field.
 
 Print Assumptions C05_nbytes_ceil.
@@ -238,3 +252,4 @@ Print Assumptions C05_async_equiv.
 Print Assumptions C05_async_equiv_seq.
 Print Assumptions C05_ref_reset.
 Print Assumptions C05_modify_sets_only_the_field.
+Print Assumptions C05_write_sets_only_the_field.
